@@ -1,0 +1,31 @@
+package blockchain
+
+import (
+	"bytes"
+	"fmt"
+
+	"github.com/tendermint/tendermint/types"
+)
+
+// VerifyCommitForSync is what the fast-sync reactors must ask of second.LastCommit before they store `first`
+// with it: the commit is persisted as the seen commit of `first` and later rebuilt into a VoteSet
+// (consensus.reconstructLastCommit -> types.CommitToVoteSet), which panics on any slot that is not a valid vote
+// of the validator at that index. VerifyCommitLight returns as soon as +2/3 is tallied and never looks at
+// nil-flagged slots or at ValidatorAddress, so every slot is checked here.
+func VerifyCommitForSync(vals *types.ValidatorSet, chainID string, blockID types.BlockID,
+	height int64, commit *types.Commit) error {
+	// +2/3 for the block, and every non-absent signature (for-block or nil) verifies
+	if err := vals.VerifyCommit(chainID, blockID, height, commit); err != nil {
+		return err
+	}
+	for idx, commitSig := range commit.Signatures {
+		if commitSig.Absent() {
+			continue
+		}
+		if val := vals.Validators[idx]; !bytes.Equal(commitSig.ValidatorAddress, val.Address) {
+			return fmt.Errorf("commit signature #%d carries validator address %X, validator at that index is %X",
+				idx, commitSig.ValidatorAddress, val.Address)
+		}
+	}
+	return nil
+}
